@@ -439,7 +439,7 @@ var signKinds = []string{"p2pk", "p2pkh", "p2pkh-u", "multisig", "p2sh-p2pkh", "
 func genSign(g *core.Gen) {
 	r := g.R
 	definedHT := []txscript.SigHashType{1, 2, 3, 0x81, 0x82, 0x83}
-	for k := 0; k < g.N(260, 6000); k++ {
+	for k := 0; k < g.N(260, 2600); k++ {
 		kind := signKinds[k%len(signKinds)]
 		nIn, nOut := 1+r.Intn(3), r.Intn(4)
 		idx := r.Intn(nIn)
